@@ -269,11 +269,32 @@ def all_paths(depth):
 
 def shards(tier, seed):
     n = 8 if tier == "quick" else 32
-    return [("paths", spelling, k, n) for spelling in ("absolute", "relative", "package", "unicode") for k in range(n)]
+    return [("paths", spelling, k, n) for spelling in ("absolute", "relative", "package", "unicode") for k in range(n)] + [("threads", "Files"), ("threads", "Pages")]
+
+
+def thread_family(r, kind, tier):
+    from ..core.runner import REPO
+    files = [os.path.join(REPO, "baize", x) for x in ("staticfiles.py", "wsgi/staticfiles.py")]
+    sb = Sandbox()
+    ROOTNAME[0] = "root"
+    try:
+        app = sb.apps("absolute")[("wsgi", kind)]
+        reqs = {"file": SV.AReq(path="/file.txt"), "dir-f": SV.AReq(path="/dir/f.txt"), "escape": SV.AReq(path="/../secret.txt"), "dir": SV.AReq(path="/dir"), "dirslash": SV.AReq(path="/dir/"), "page": SV.AReq(path="/x"), "nofile": SV.AReq(path="/nofile")}
+        pairs = [(x, y) for x in reqs for y in reqs if x < y]
+        _AUDIT["log"] = []
+        SV.wsgi_thread_pairs(r, kind, app, reqs, pairs, files, bound=1 if tier == "quick" else 2)
+        if _AUDIT["log"]:
+            r.violation("opened-outside-directory", {"threads": kind}, f"two-thread runs of wsgi {kind} opened <sandbox>/{os.path.relpath(_AUDIT['log'][0], _AUDIT['sandbox'])}")
+        r.sample({"threads": kind, "requests": list(reqs)})
+    finally:
+        sb.close()
 
 
 def run_shard(desc, tier):
     r = R()
+    if desc[0] == "threads":
+        thread_family(r, desc[1], tier)
+        return r
     _, spelling, k, n = desc
     sb = Sandbox()
     ROOTNAME[0] = "raíz文" if spelling == "unicode" else "root"
@@ -297,6 +318,9 @@ def finish(merged, tier):
 
 def replay(w):
     r = R()
+    if "threads" in w:
+        thread_family(r, w["threads"], "quick")
+        return bool(r.viol), {"violations": sorted(r.viol), "texts": [v[2][:300] for v in r.viol.values()]}
     sb = Sandbox()
     ROOTNAME[0] = "raíz文" if w["spelling"] == "unicode" else "root"
     try:
